@@ -20,12 +20,13 @@ class C04(common.Check):
             "library-made nonce-mode blobs, plaintext lengths 0/1/16/100. Faults: every single-bit flip and every truncation length of "
             "the enumerated base blobs (all of them in thorough, a rotating subset in quick), PRNG byte substitution / insertion / deletion, "
             "2-4 site corruption and field-targeted overwrites (lengths, OIDs, nonce, wrapped CEK, key-identifier fields, ciphertext, tag) "
-            "located with ref.cms' offset map. Non-trivial = stored bytes differ from the base blob; distinct = distinct (blob, faults).")
+            "located with ref.cms' offset map; algorithm substitution (content-encryption OID rewritten to every AES mode of the NIST arc x "
+            "parameter shapes x content cut to blocks, all 256 last IV bytes for the CBC OIDs); flips/truncations of blobs with > 1 MiB content. Non-trivial = stored bytes differ from the base blob; distinct = distinct (blob, faults).")
     components = {"client": "real (ncrypt_unprotect_secret, DPAPINGBlob.unpack, KeyCache, key derivation, AES-KW/GCM via cryptography)",
                   "blob store": "simulated (fault injection at rest)", "network": "simulated, no DC reachable (attempts observed at the seam)",
                   "base blobs": "reference encoder (ref.cms) and the library's own protect"}
     assumptions = ["AES-KW and AES-GCM from the cryptography package are trusted primitives"]
-    required_fired = ("rot", "tear", "outcome_raise", "outcome_same")
+    required_fired = ("rot", "tear", "algsub", "big_content", "outcome_raise", "outcome_same")
 
     def exhaustive(self, tier):
         return tier == "thorough"
@@ -74,16 +75,42 @@ class C04(common.Check):
                     val = bytes(rng.randrange(256) for _ in range(max(0, ln + rng.choice((-1, 1)))))
                 f = [["field", name, val.hex()]]
             out.append([bi, f])
+        # algorithm substitution (multi-site, field-aware): every AES mode of the NIST arc x parameter shapes x content cut to blocks;
+        # for the CBC OIDs every last IV byte (a padding oracle needs 1 of 256)
+        AES_ARCS = list(range(1, 9)) + list(range(21, 29)) + list(range(41, 49))
+        for bi in (0, 1, len(cat) - 2, len(cat) - 1) if tier == "quick" else range(0, len(cat), 3):
+            for arc in AES_ARCS:
+                for pk in ("iv16", "iv12", "gcm", "null", "absent"):
+                    for cl in (16, 32, -1):
+                        if arc == 46 and pk == "gcm" and cl == -1:
+                            continue
+                        out.append([bi, [["algsub", arc, pk, cl, 0]]])
+            for arc in (2, 22, 42):
+                for ivb in range(256):
+                    out.append([bi, [["algsub", arc, "iv16", 16, ivb]]])
+        # content larger than 1 MiB: flips / truncations in the big ciphertext and its tag
+        nb = len(cat)
+        for k, b in enumerate(blobs.big_blobs()):
+            n = len(b.blob)
+            s_, e_ = b.offsets["enc_content"]
+            pts = [s_, s_ + 1, s_ + 65535, s_ + 65536, s_ + 65537, (s_ + e_) // 2, e_ - 17, e_ - 16, e_ - 1] + [rng.randrange(s_, e_) for _ in range(12 if tier == "quick" else 200)]
+            for off in pts:
+                out.append([nb + k, [["flip", off * 8 + rng.randrange(8)]]])
+            for cut in (e_ - 1, e_ - 16, e_ - 17, s_ + 1024 * 1024, s_ + 65536):
+                out.append([nb + k, [["trunc", cut]]])
         return out
 
     def run_case(self, case):
         bi, faults = case
-        b = blobs.catalogue("any" if "any" in blobs._CAT else next(iter(blobs._CAT)))[bi]
+        cat = blobs.catalogue(next(iter(blobs._CAT)))
+        b = cat[bi] if bi < len(cat) else blobs.big_blobs()[bi - len(cat)]
         stored = blobstore.apply_faults(b.blob, faults, b.offsets)
         fired = {}
         for f in faults:
-            k = {"flip": "rot", "trunc": "tear", "subst": "rot", "ins": "ins", "del": "del", "field": "field"}[f[0]]
+            k = {"flip": "rot", "trunc": "tear", "subst": "rot", "ins": "ins", "del": "del", "field": "field", "algsub": "algsub"}[f[0]]
             fired[k] = fired.get(k, 0) + 1
+        if len(b.blob) > 1024 * 1024:
+            fired["big_content"] = 1
         if stored == b.blob:
             return {"viol": None, "digest": "same", "key": None, "fired": fired, "probes": {"noop_fault": 1}, "vtime_ns": 0}
         out, world, cnt = blobs.unprotect_stored(b, stored)
@@ -104,6 +131,7 @@ class C04(common.Check):
 
     def setup(self, tier, seed):
         blobs.catalogue(tier)
+        blobs.big_blobs()
 
     def shrink(self, case):
         bi, faults = case
@@ -112,7 +140,8 @@ class C04(common.Check):
                 yield [bi, faults[:i] + faults[i + 1 :]]
 
     def sample_repr(self, case, res):
-        b = blobs.catalogue(next(iter(blobs._CAT)))[case[0]]
+        cat = blobs.catalogue(next(iter(blobs._CAT)))
+        b = cat[case[0]] if case[0] < len(cat) else blobs.big_blobs()[case[0] - len(cat)]
         return {"blob": b.name, "faults": case[1]}
 
 
